@@ -498,6 +498,8 @@ def main():
             print("VIOLATION property=%s replay=%s" % (prop, path))
             print("  why: %s" % v.get("why"))
             rc = 1
+        if confirmed > 0:
+            rc = 1          # a violation reproduced on the real code is the verdict, whatever else stayed unconfirmed
         total_beh = ev["behaviours"] + ev["go_evaluations"]
         if ev["behaviours"] and ev["desynced"] > ev["behaviours"] // 2 and rc == 0:
             print("most behaviours desynchronised - nothing decided: %s" % json.dumps([j.get("desync_why") for j in ev["jobs"]]))
